@@ -18,6 +18,8 @@ func (*NumberLiteral) valueExpr()   {}
 func (*StringLiteral) valueExpr()   {}
 func (*BinaryInfix) valueExpr()     {}
 
+func (*BigNumberLiteral) valueExpr() {}
+
 type InfixOperator string
 
 const (
@@ -34,6 +36,12 @@ type (
 	NumberLiteral struct {
 		Range
 		Number int
+	}
+
+	// A number literal that does not fit the Number field of NumberLiteral
+	BigNumberLiteral struct {
+		Range
+		Number *big.Int
 	}
 
 	StringLiteral struct {
